@@ -56,7 +56,7 @@ fn main() {
                 Some(c) => {
                     let r = supervise(
                         c.as_ref(),
-                        SupArgs { tier: tier_of(&args), master: seed_of(&args), jobs: jobs_of(&args), runs: arg(&args, "--runs").and_then(|s| s.parse().ok()), secs: arg(&args, "--secs").and_then(|s| s.parse().ok()), write_evidence: !args.iter().any(|a| a == "--no-evidence") && std::env::var("VERIF_NO_EVIDENCE").is_err(), quiet: false },
+                        SupArgs { first: arg(&args, "--first").and_then(|s| s.parse().ok()).unwrap_or(0), tier: tier_of(&args), master: seed_of(&args), jobs: jobs_of(&args), runs: arg(&args, "--runs").and_then(|s| s.parse().ok()), secs: arg(&args, "--secs").and_then(|s| s.parse().ok()), write_evidence: !args.iter().any(|a| a == "--no-evidence") && std::env::var("VERIF_NO_EVIDENCE").is_err(), quiet: false },
                     );
                     r.exit
                 }
@@ -69,7 +69,7 @@ fn main() {
             let skip: Vec<u64> = arg(&args, "--skip").map(|s| s.split(',').filter_map(|x| x.parse().ok()).collect()).unwrap_or_default();
             worker(
                 c.as_ref(),
-                WorkerArgs { tier: tier_of(&args), master: seed_of(&args), shard: g("--shard"), of: g("--of").max(1), runs: g("--runs"), batch: g("--batch").max(1), from_batch: g("--from-batch"), skip, out: PathBuf::from(arg(&args, "--out").unwrap()), hb: PathBuf::from(arg(&args, "--hb").unwrap()), deadline_s: g("--deadline") },
+                WorkerArgs { first: g("--first"), tier: tier_of(&args), master: seed_of(&args), shard: g("--shard"), of: g("--of").max(1), runs: g("--runs"), batch: g("--batch").max(1), from_batch: g("--from-batch"), skip, out: PathBuf::from(arg(&args, "--out").unwrap()), hb: PathBuf::from(arg(&args, "--hb").unwrap()), deadline_s: g("--deadline") },
             )
         }
         "replay" => {
@@ -123,7 +123,7 @@ fn selftest(args: &[String]) -> i32 {
                 }
                 let mut digs = Vec::new();
                 for (jobs, rep) in [(1u64, 0), (16, 0), (16, 1), (5, 0)] {
-                    let r = supervise(c.as_ref(), SupArgs { tier: Tier::Quick, master: seed_of(args), jobs, runs: Some(runs), secs: Some(600), write_evidence: false, quiet: true });
+                    let r = supervise(c.as_ref(), SupArgs { first: 0, tier: Tier::Quick, master: seed_of(args), jobs, runs: Some(runs), secs: Some(600), write_evidence: false, quiet: true });
                     println!("selftest determinism: {} jobs={} rep={} evals={} digest={} exit={}", c.id(), jobs, rep, r.evals, r.digest, r.exit);
                     if r.exit == 2 {
                         bad += 1;
